@@ -408,18 +408,17 @@ func ConvertJsonValueToTv(d any, slt *sdcpb.SchemaLeafType) (*sdcpb.TypedValue, 
 			Value: &sdcpb.TypedValue_BoolVal{BoolVal: b},
 		}, nil
 	case "decimal64":
-		arr := strings.SplitN(d.(string), ".", 2)
-		digits, err := strconv.ParseInt(arr[0], 10, 64)
+		// the value is the decimal number itself (given as string or as json number),
+		// the part after the dot are the fraction digits, not the precision.
+		d64, err := ParseDecimal64(fmt.Sprintf("%v", d))
 		if err != nil {
 			return nil, err
 		}
-		precision64, err := strconv.ParseUint(arr[1], 10, 32)
-		if err != nil {
-			return nil, err
+		if d64 == nil {
+			return nil, fmt.Errorf("error converting %v to decimal64", d)
 		}
-		precision := uint32(precision64)
 		return &sdcpb.TypedValue{
-			Value: &sdcpb.TypedValue_DecimalVal{DecimalVal: &sdcpb.Decimal64{Digits: digits, Precision: precision}},
+			Value: &sdcpb.TypedValue_DecimalVal{DecimalVal: d64},
 		}, nil
 	case "union":
 		for _, ut := range slt.GetUnionTypes() {
